@@ -53,7 +53,7 @@ func init() {
 		func(c *Ctx) {
 			ruleTSMult(c)
 			ruleEFU(c, "time.", 1)
-			rulePCArg(c, isTimePkgFunc(c.P), 5, 1)
+			rulePCArg(c, isTimePkgFunc(c.P), 5, 0)
 			ruleTSNoDur(c)
 			c.Note("not decided: DateCodec.Write divides Unix seconds by 86400 truncating toward zero (wrong before 1970 for non-midnight times); overflow of l*mult")
 		})
